@@ -98,6 +98,12 @@ is_assignable(CPPType *type) {
   case CPPDeclaration::ST_typedef:
     return is_assignable(type->as_typedef_type()->_type);
 
+  case CPPDeclaration::ST_array:
+    // An array member is set by copying its elements, which needs a known
+    // bound and assignable elements.
+    return type->as_array_type()->_bounds != nullptr &&
+      is_assignable(type->as_array_type()->_element_type);
+
   default:
     return true;
   }
